@@ -47,10 +47,11 @@ def cerr {α} : Out α := .err ⟨true, []⟩
 /-- a fresh `*ConstraintError` with the given path -/
 def cerrAt {α} (p : List String) : Out α := .err ⟨true, p⟩
 
-/-- `ConstraintErrorAddPathSegment`: prefixes the segment if the chain holds a ConstraintError,
-    otherwise returns the error unchanged. -/
+/-- `ConstraintErrorAddPathSegment`: prefixes the segment to the path of the ConstraintError in
+    the chain; an error that is not a ConstraintError is wrapped into one carrying the segment
+    (as repaired: before, such an error travelled upwards without a path). -/
 def addSeg {α} (seg : String) : Out α → Out α
-  | err e => if e.constraint then .err ⟨true, seg :: e.path⟩ else .err e
+  | err e => .err ⟨true, seg :: e.path⟩
   | o => o
 
 /-- forget the value -/
